@@ -14,7 +14,7 @@ from ..common import Ctx, Scheme
 SCHEME_NAMES = [s.value for s in Scheme]
 
 
-def run_cli(args, cwd: Path, timeout=240):
+def run_cli(args, cwd: Path, timeout=150):
     env = dict(os.environ)
     env["PYTHONPATH"] = str(common.REPO / "src") + os.pathsep + env.get("PYTHONPATH", "")
     env["JAX_PLATFORMS"] = "cpu"
@@ -268,7 +268,20 @@ def gen_case(ctx: Ctx, k: int):
 
 def c18_run(ctx: Ctx):
     n = ctx.n(20, 300)
-    cases = [gen_case(ctx, k) for k in range(n)]
+    cases = []
+    for k in range(n):
+        case = gen_case(ctx, k)
+        # the API side of a case runs in a worker thread (no SIGALRM there): only keep texts that
+        # sympy loads in reasonable time (an invalid text is meant to fail, quickly)
+        ok = False
+        with common.time_limit(ctx, 20):
+            try:
+                common.load(case["text"])
+            except Exception:
+                pass
+            ok = True
+        if ok:
+            cases.append(case)
     # missing model file
     d = ctx.tmp / "cli_missing"
     d.mkdir(exist_ok=True)
